@@ -8,7 +8,7 @@ def run(ctx):
     b = shm.shmsim(ctx)
     cov, viol, samples = shm.run_sched(ctx, b, "C03", 60000 if q else 1500000)
     ctx.log("sched: %d scenarios, %d distinct, %d idle-window calls" % (cov["scenarios"], cov["distinct_schedules"], cov["idle_calls"]))
-    parts = shm.run_single(ctx, b, ["c03long", "--seed", str(ctx.seed), "--rounds", "4" if q else "60"], NPROC, 1800)
+    parts = shm.run_single(ctx, b, ["c03long", "--seed", str(ctx.seed), "--rounds", "4" if q else "60", "--signals", "1" if q else "2"], NPROC, 1800)
     lng = {"evaluations": 0, "idle_calls": 0, "wrap_crossings": 0, "exception_cases": 0, "distinct": 0, "sparse_change_checks": 0}
     lsamples = []
     lost = 0
